@@ -523,6 +523,11 @@ func randProg(c *hx.Ctx, maxOps int) [][]opK {
 // policy 0: uniform over live threads; 1: bursts (keep the same thread for a random run);
 // 2: PCT-style (random priorities, d priority-change points).  maxLen < 0: until everything finished.
 func randSchedule(c *hx.Ctx, prog [][]opK, policy int, maxLen int) []int {
+	return randScheduleN(c, prog, policy, maxLen, 600)
+}
+
+// randScheduleN: the same with an explicit cap on the number of schedule entries.
+func randScheduleN(c *hx.Ctx, prog [][]opK, policy int, maxLen int, stepCap int) []int {
 	r := newRunner(prog)
 	n := len(prog)
 	prio := make([]int, n)
@@ -533,9 +538,12 @@ func randSchedule(c *hx.Ctx, prog [][]opK, policy int, maxLen int) []int {
 	for i := 0; i < c.Rng.Range(1, 4); i++ {
 		change[c.Rng.Intn(80)] = true
 	}
+	for i := 600; i < stepCap; i += 200 { // long runs: a priority change every ~200 steps
+		change[i+c.Rng.Intn(200)] = true
+	}
 	var sched []int
 	cur, burst := -1, 0
-	for k := 0; k < 600 && (maxLen < 0 || k < maxLen); k++ {
+	for k := 0; k < stepCap && (maxLen < 0 || k < maxLen); k++ {
 		var lv []int
 		for t := 0; t < n; t++ {
 			if r.live(t) {
@@ -1101,6 +1109,11 @@ func GenC01(c *hx.Ctx) {
 		c.Emit("prog %s | sched %s", showProg(prog), schedStr(sched))
 		c.Count(fmt.Sprintf("random_policy%d_threads%d", policy, len(prog)))
 	}
+	// long-history / many-thread classes (long.go); generated last so that the random stream above is unchanged
+	genLongStallX(c)
+	genFrozen(c, false)
+	genHot(c, false)
+	genReuse(c, false)
 }
 
 // GenC02: every reachable state of the explored configurations × every busy thread (shortest prefix),
@@ -1146,4 +1159,9 @@ func GenC02(c *hx.Ctx) {
 		c.Emit("prog %s | sched %s | solo %d", showProg(prog), schedStr(full[:cut]), c.Rng.Pick(busy))
 		c.Count(fmt.Sprintf("random_solo_threads%d", len(prog)))
 	}
+	// long-history / many-thread classes (long.go)
+	genStallSolo(c)
+	genFrozen(c, true)
+	genHot(c, true)
+	genReuse(c, true)
 }
